@@ -360,6 +360,12 @@ class Mirror(object):
                 for i, t in enumerate(s.targets):
                     if not isinstance(t, ast.Name) and any(h for _, h in tinfo[i + 1:]):
                         self.reasons.add('anf-assign-target-order')
+                # a name bound by the statement itself and read by a target operand that is hoisted in front of
+                # the statement: `b = (b << q).val = d`, `b, (b << q).val = d` (the hoisted read sees the old b)
+                stored = {n.id for t in s.targets for n in ast.walk(t) if isinstance(n, ast.Name) and isinstance(n.ctx, ast.Store)}
+                loaded = {n.id for t in s.targets for n in ast.walk(t) if isinstance(n, ast.Name) and isinstance(n.ctx, ast.Load)}
+                if stored & loaded:
+                    self.reasons.add('anf-assign-target-order')
         elif isinstance(s, ast.AugAssign):
             qt, ht = self.expr(s.target)
             qv, hv = self.expr(s.value)
